@@ -158,6 +158,24 @@ def c_wallProfile(chk):
             chk.undecided.append(f"wallProfile[{branch}]: {len(paths)} paths")
             continue
         p = paths[0]
+        if branch == "array":
+            # native cross-check / replay specification: the real EOM.wallProfile with real Fields / WallParams objects
+            from wgvc.crosscheck import Cross
+
+            def sample(rnd):
+                env = {"z0": rnd.uniform(-3, 3), "z1": rnd.uniform(-3, 3)}
+                for f in range(NF):
+                    env.update({f"width{f}": rnd.uniform(0.2, 3), f"offset{f}": rnd.uniform(-2, 2), f"vevLow{f}": rnd.uniform(-5, 5), f"vevHigh{f}": rnd.uniform(-5, 5)})
+                return env
+
+            def scenario(env):
+                arr = lambda xs: {"__stub__": "array", "data": xs}       # noqa: E731
+                fields = lambda pre: {"__stub__": "real", "module": "WallGo.fields", "class": "Fields", "init": {"args": [[env[f"{pre}{f}"] for f in range(NF)]]}}   # noqa: E731
+                wp = {"__stub__": "real", "module": "WallGo.containers", "class": "WallParams",
+                      "init": {"kwargs": {"widths": arr([env[f"width{f}"] for f in range(NF)]), "offsets": arr([env[f"offset{f}"] for f in range(NF)])}}}
+                return {"module": "WallGo.equationOfMotion", "method": "wallProfile", "args": [arr([env["z0"], env["z1"]]), fields("vevLow"), fields("vevHigh"), wp],
+                        "self": {"__stub__": "real", "module": "WallGo.equationOfMotion", "class": "EOM", "attrs": {}}}
+            chk.cross(Cross("EOM.wallProfile", [p], sample, scenario, result=lambda pth: [as_array(x) for x in pth.value], rtol=1e-9))
         fields, dphi = (as_array(x) for x in p.value)
         want_shape = (len(zs), NF) if branch == "array" else (1, NF)
         chk.vc(f"wallProfile.{branch}.shape", p.pc, sym.to_sym(fields.shape == want_shape and dphi.shape == want_shape), func=fn)
